@@ -10,6 +10,8 @@ Model <-> code disagreement is SPEC-DRIFT (exit 0) except for the clauses a list
   C12  no scratch cell is read before it was written in the same call (output depending on stack contents): the model's
        read-before-write fold on the recorded values, and the twin execution of every function-level call over a differently
        filled stack (outputs and state must be equal)
+(A second twin whose exc_Q14 / outBuf cells outside the model's read set are flipped must also agree: a difference means the code
+reads state cells the model does not - SPEC-DRIFT, because reading another cell of the same array breaks no listed property.)
 Those are printed as VIOLATION with the property's name in the detail line."""
 import json, os, random, re, time
 import vf
@@ -18,7 +20,7 @@ LEVEL = "model_checking"
 PROVISIONAL = []          # no deviation of the code from a listed property was found on the unchanged tree
 
 WRAP = ["-Wl,--wrap=silk_decode_core,--wrap=silk_LPC_analysis_filter,--wrap=silk_PLC,--wrap=silk_CNG,"
-        "--wrap=silk_decode_frame,--wrap=silk_decoder_set_fs"]
+        "--wrap=silk_decode_frame,--wrap=silk_decoder_set_fs,--wrap=silk_sum_sqr_shift"]
 
 INV = ["AllInside", "StartIdxPositive", "PlcIdxPositive", "StartIdxMargin", "PlcIdxMargin", "NoReadBeforeWrite", "LoopCarriedOK",
        "PlcLagRange", "CngMaskOK", "FrameShapeOK", "CarveOK", "OutBufExact", "ForcedLagIsLag"]
@@ -27,12 +29,13 @@ WITNESS = [("SilkDecCore_mc_w_slack4.cfg", "StartIdxPositive", "lag clamp raised
            ("SilkDecCore_mc_w_plcslack4.cfg", "PlcIdxPositive", "concealment lag clamp raised by 4 samples: idx reaches 0 at 8 kHz"),
            ("SilkDecCore_mc_w_margin.cfg", "MarginNotAttained", "the margin start_idx = 4 is attained (8 kHz, lag 144)"),
            ("SilkDecCore_mc_w_plcmargin.cfg", "PlcMarginNotAttained", "the margin idx = 4 is attained (8 kHz, lag 144)"),
+           ("SilkDecCore_mc_w_box.cfg", "NoReadBeforeWrite", "lag vectors no contour can code (16 then 144 samples): sLTP_Q15 is read below its back-filled part"),
            ("SilkDecCore_mc_w_exc.cfg", "ExcFreshWitness", "a concealment can read exc_Q14 cells the last decoded frame did not write")]
 TIERS = dict(
     quick=dict(mc="SilkDecCore_mc_quick.cfg", witness=WITNESS, full_li=False, plc_run=14, streams=36, nproc=6, chunks=10),
-    thorough=dict(mc="SilkDecCore_mc_full.cfg", witness=WITNESS, slack3=True, full_li=True, plc_run=70, streams=120, nproc=8, chunks=24),
+    thorough=dict(mc="SilkDecCore_mc_full.cfg", witness=WITNESS, slack3=True, full_li=True, plc_run=70, streams=300, nproc=8, chunks=32),
 )
-NEED = {"fn", "situ", "twin.core", "twin.plc", "core.forced", "core.k2", "core.rescale", "plc.reset", "plc.clamp", "plc.drift", "plc.shortexc", "cng.lost", "cng.update",
+NEED = {"fn", "situ", "bits", "twin.core", "twin.plc", "core.forced", "core.k2", "core.rescale", "plc.reset", "plc.clamp", "plc.drift", "plc.shortexc", "cng.lost", "cng.update",
         '<<"df", 0>>', '<<"df", 1>>', '<<"df", 2>>', "df.stereo", "df.10ms", "df.20ms", "setfs.change", "setfs.framelen", "setfs.first",
         '<<"core.margin", 8>>', '<<"core.margin", 12>>', '<<"core.margin", 16>>'} | \
        {'<<"core", %d, %d, 2>>' % (fs, nb) for fs in (8, 12, 16) for nb in (2, 4)} | {'<<"plc", %d, %d>>' % (fs, nb) for fs in (8, 12, 16) for nb in (2, 4)}
@@ -71,6 +74,12 @@ def fn_plan(ctx, T):
             for fs2 in (8, 12, 16):
                 for nb2 in (2, 4):
                     L.append("F %d %d %d %d" % (fs, nb, fs2, nb2))
+            # crafted bit-streams (real range encoder -> real silk_decode_frame): extreme lagIndex x contour x delta coding past the absolute range
+            nc = ncontours(fs, nb)
+            for li in (0, 1, mx // 2, mx - 11, mx):
+                for ci in (range(nc) if T["full_li"] else sorted({0, 1, nc // 2, nc - 1})):
+                    for dl in (-8, 0, 11):
+                        L.append("B %d %d %d %d %d %d 3" % (fs, nb, li, ci, (li + ci) % 2, dl))
     return L
 
 
@@ -202,27 +211,41 @@ def report(ctx, rejs, replay_of):
 
 
 def run_harness(ctx, exe, mode, lines, out):
+    """Runs the harness; returns None when it ended normally, else (detail, replay text) - reported by the caller in the main
+    thread: a crash of the decoder under the sanitizer / assertions is the one thing the runner reports directly."""
     inp = out + ".in"
     with open(inp, "w") as f:
         f.write("\n".join(lines) + "\n")
     rc, err = vf.run_hx(exe, [mode, str(ctx.seed)], out, timeout=1500, stdin_path=inp)
-    if rc != 0:
-        # a crash of the decoder under the sanitizer / assertions is the one thing the runner reports directly
-        last = ""
-        try:
-            last = [l for l in open(out).read().splitlines() if l.startswith('{"k":"new"')][-1]
-        except Exception:                                       # noqa
-            pass
-        ctx.violation("C01: hx_silkdeccore %s ended with rc=%d (sanitizer / assertion / watchdog) after %s: %s" % (mode, rc, last, err[-1200:]),
-                      replay_text=json.dumps(dict(mode=mode, lines=lines, seed=ctx.seed)))
-        return False
-    return True
+    if rc == 0:
+        return None
+    last = ""
+    try:
+        last = [l for l in open(out).read().splitlines() if l.startswith('{"k":"new"')][-1]
+    except Exception:                                       # noqa
+        pass
+    return ("C01: hx_silkdeccore %s ended with rc=%d (sanitizer / assertion / watchdog) after %s: %s" % (mode, rc, last, err[-1200:]),
+            json.dumps(dict(mode=mode, lines=lines, seed=ctx.seed)))
+
+
+def report_crashes(ctx, fails):
+    seen = set()
+    for f in fails:
+        if f is None:
+            continue
+        m = re.search(r"(assertion failed: [^\n]*|ERROR: AddressSanitizer: [^\n]*|runtime error: [^\n]*)", f[0])
+        key = m.group(1) if m else f[0][-200:]
+        if key in seen:
+            continue
+        seen.add(key)
+        ctx.violation(f[0], replay_text=f[1])
+    return len(seen)
 
 
 def replay(ctx, exe):
     d = json.loads(open(ctx.replay).read().strip().splitlines()[0])
     out = ctx.path("replay.ndjson")
-    if not run_harness(ctx, exe, d["mode"], d["lines"], out):
+    if report_crashes(ctx, [run_harness(ctx, exe, d["mode"], d["lines"], out)]):
         return
     chunks = split_trace(out, 1, ctx.path("replay_chunk"))
     rejs, seen, events = judge_chunks(ctx, chunks, "replay", 1)
@@ -236,12 +259,14 @@ def replay(ctx, exe):
 def run(ctx):
     T = TIERS[ctx.tier]
     ctx.rule = ("SilkDecCore_mc: TLC closes the index machine over 8/12/16 kHz x 10/20 ms x every lag vector SilkParams!PitchLags can produce "
-                "(lagIndex -16..MaxAbs+22 x every contour; the quick tier thins lagIndex by 4 and keeps the extremes) x NLSF interpolation x gain-change "
+                "(lagIndex -16..MaxAbs+22 x every contour; the quick tier thins lagIndex by 8 and keeps the extremes) x NLSF interpolation x gain-change "
                 "patterns x the forced voiced->unvoiced transition for every lagPrev x every concealment start pitch run to the lag clamp, and checks the "
-                "theorems in notes.theorems; witness configurations (lag clamp raised by 4, margins attained, stale exc_Q14) must be REFUTED. "
+                "theorems in notes.theorems; witness configurations (lag clamp raised by 4, margins attained, uncodable lag vectors, stale exc_Q14) must be REFUTED. "
                 "hx_silkdeccore interposes the real silk_decode_core / silk_LPC_analysis_filter / silk_PLC / silk_CNG / silk_decode_frame / "
                 "silk_decoder_set_fs (link-time --wrap, ASan/UBSan + assertions) (a) at function level on plan points of the model's domain (lags "
-                "through the real silk_decode_pitch) and (b) inside opus_decode of real speech-only / hybrid streams with losses, FEC, resets, rate "
+                "through the real silk_decode_pitch; twin executions over a differently filled stack and with every state cell outside the model's read "
+                "set flipped), (a') crafted bit-streams written with the real range encoder (silk_encode_indices / silk_encode_pulses: extreme lagIndex x "
+                "contour, delta coding past the absolute range, then losses and the forced transition) through the real silk_decode_frame, and (b) inside opus_decode of real speech-only / hybrid streams with losses, FEC, resets, rate "
                 "and frame-length switches; SilkDecCoreTrace recomputes every call's access list from the recorded fields and compares the recorded "
                 "spans. Non-trivial = distinct (geometry, signal type, lags, interpolation, gain pattern, loss state) core calls, distinct "
                 "(geometry, pitch, sPLC shape) concealment calls, distinct frame / set_fs events.")
@@ -250,22 +275,20 @@ def run(ctx):
         "sub-frame 5 ms, LPC order 10 (8/12 kHz) / 16 (16 kHz), lags 2..18 ms, pitch drift 655/65536 per sub-frame (SilkPlc).",
         "Arrays are abstracted to lengths and accesses to intervals; a loop whose iterations read cells written by earlier iterations is split into the "
         "cells that must pre-exist and a loop-carried distance condition (lag >= 3).",
-        "The contour code-book words are exported from the built library (hx_silk tables, as C18 does) and read by SilkParams.",
+        "The contour code-book words are exported from the built library (hx_silkdeccore tables: the same JSON line as C18's hx_silk tables) and read by SilkParams.",
         "Observed through interposition: the silk_LPC_analysis_filter spans (they carry start_idx / idx), pitchL_Q8 before/after, psDecCtrl->pitchL, outBuf "
         "against the previous tail + the frame after the shift, the two channels' output pointers. Accesses inside the loops are not observed cell by cell: "
         "they are covered by the model's arithmetic on the recorded values and by ASan on the stack arrays.",
-        "Not covered (time): crafted bitstreams through the range encoder (the function level calls the real silk_decode_pitch on every (lagIndex, contour) "
-        "instead); the LBRR frame loop bounds of dec_API.c beyond nFramesPerPacket <= 3; delay_stack_alloc.",
+        "Not covered (time): the LBRR frame loop bounds of dec_API.c beyond nFramesPerPacket <= 3; delay_stack_alloc.",
     ]
     var = vf.build_variant("hk")
     exe = vf.build_hx(var, "silkdeccore.c", extra=WRAP)
     if ctx.replay:
         return replay(ctx, exe)
-    exe_t = vf.build_hx(var, "silk.c")
     tab = ctx.path("silk_tables.json")
-    rc, err = vf.run_hx(exe_t, ["tables"], tab, timeout=120)
+    rc, err = vf.run_hx(exe, ["tables"], tab, timeout=120)
     if rc != 0:
-        raise vf.Infra("hx_silk tables failed rc=%d %s" % (rc, err[-800:]))
+        raise vf.Infra("hx_silkdeccore tables failed rc=%d %s" % (rc, err[-800:]))
     env = {"SILKTAB": tab}
 
     # 1. the model
@@ -309,10 +332,11 @@ def run(ctx):
     sparts = [lines[i::nproc] for i in range(nproc)]
     souts = [ctx.path("situ_%02d.ndjson" % i) for i in range(nproc)]
     jobs = [("fn", fparts[i], fouts[i]) for i in range(nproc) if fparts[i]] + [("situ", sparts[i], souts[i]) for i in range(nproc) if sparts[i]]
-    oks = vf.parallel(lambda j: run_harness(ctx, exe, j[0], j[1], j[2]), jobs, nproc)
+    fails = vf.parallel(lambda j: run_harness(ctx, exe, j[0], j[1], j[2]), jobs, nproc)
     ctx.notes["harness_wall_s"] = round(time.time() - t0, 1)
     ctx.notes["plan"] = dict(fn_points=len(plan), streams=len(lines))
-    if not all(oks):
+    if report_crashes(ctx, fails):
+        ctx.notes["crashes"] = sum(1 for f in fails if f)
         return
 
     # 3. judgement by TLC
@@ -338,7 +362,7 @@ def run(ctx):
     if prop:
         d = json.loads(replay_of_chunk(prop[0][2], prop[0][4]))
         out2 = ctx.path("again.ndjson")
-        if run_harness(ctx, exe, d["mode"], d["lines"], out2):
+        if run_harness(ctx, exe, d["mode"], d["lines"], out2) is None:
             r2, _, _ = judge_chunks(ctx, split_trace(out2, 1, ctx.path("againc")), "re-run", 1)
             if not [x for x in r2 if x[0] != "drift"]:
                 raise vf.Infra("a rejection (%s) did not repeat on re-execution" % (prop[0][:2],))
